@@ -7,7 +7,7 @@ TIMEOUT = 5.0
 UNMODELLED = "unmodelled"
 LEVEL_TEXT = ("Lean theorems: parse(write a) = a (names, order, residues, length, detected alphabet) for every "
               "representable alignment, every wrap width w > 0, every number of rows and every length, by induction "
-              "over rows and over chunks - complete for FASTA (roundtrip_fasta); executable writer + parser models of all five "
+              "over rows and over chunks - complete for FASTA (roundtrip_fasta) and Stockholm (roundtrip_stockholm); executable writer + parser models of all five "
               "formats (Phylip with its 8 option combinations, multi-alignment streams and auto-detection as folds over them) "
               "tied to /repo by constant regeneration (line / block widths) and differential correspondence of writer bytes "
               "and parser results; the round-trip predicate is evaluated on the implementation for every format x option, "
@@ -15,10 +15,10 @@ LEVEL_TEXT = ("Lean theorems: parse(write a) = a (names, order, residues, length
               "refuted for the code as it is (roundtrip_nexus_counterexample).")
 LEVEL_NOTE = ("Trusted: Lean kernel; harness; compress/gzip, xz, bufio, the file system (file round trips are observed on "
               "the implementation and compared with the in-memory model). Round-trip theorems for Phylip, Nexus, Clustal, "
-              "Stockholm, the multi-Phylip stream and auto-detection are open (models + correspondence only): see evidence 'partial'.")
+              "the multi-Phylip stream and auto-detection are open (models + correspondence only): see evidence 'partial'.")
 TECHNIQUE = "Lean 4 proof (induction over rows / chunks for every width) + differential correspondence"
 LEAN_MODULES = ["Gv.Props.C02"]
-REQUIRED_THEOREMS = ["Gv.Props.C02." + n for n in ["roundtrip_fasta", "roundtrip_fasta_go", "roundtrip_nexus_counterexample"]]
+REQUIRED_THEOREMS = ["Gv.Props.C02." + n for n in ["roundtrip_fasta", "roundtrip_fasta_go", "roundtrip_stockholm", "roundtrip_nexus_counterexample"]]
 TRUSTED = ["compress/gzip, github.com/ulikunitz/xz, bufio, os (temp files): .gz/.xz round trips are observed, not modelled",
            "version.Version of the harness build is the literal 'Unset' (Clustal header line)"]
 ASSUMPTIONS = ["the property's residue alphabet: IUPAC nucleotide codes ACGTU RYSWKM BDHV N or the 20 amino acids + B Z X, "
@@ -33,7 +33,8 @@ RULE = ("alignments of 1..8 rows, L in {1,9,10,11,49,50,51,59,60,61,79,80,81,119
 
 PARTIAL = [
     "FASTA: complete (roundtrip_fasta: every width w > 0, every alignment, every duplicate policy, with and without the patch)",
-    "Phylip (strict / one-line / no-block), Clustal, Stockholm: writer + parser models with byte-exact correspondence; "
+    "Stockholm: complete (roundtrip_stockholm: every alignment, every duplicate policy, with and without the proposed guards)",
+    "Phylip (strict / one-line / no-block), Clustal: writer + parser models with byte-exact correspondence; "
     "round-trip theorems stated in Props/C02.lean and OPEN",
     "Nexus: model + correspondence; the round trip is FALSE for the code as it is (rows spelling a reserved word, "
     "roundtrip_nexus_counterexample); the theorem under the extra hypothesis 'no row spells a reserved word' is open",
